@@ -15,6 +15,8 @@ META = dict(
 
 
 def run(ctx):
+    import os
+    skip_m = bool(os.environ.get("VERIF_SKIP_M"))   # mutation self-tests only: phase M does not depend on the code
     ctx.assumptions += ["MapDatastore + namespace wrapper + NaiveQueryApply (go-datastore) are correct",
                         "go-multibase base64url is injective"]
     ctx.cov["rule"] = ("G: (a) every call sequence (Add/Delete/DeleteKey/DeleteAll over 3 keys, 3 values and the empty string) of "
@@ -23,7 +25,8 @@ def run(ctx):
                        "table) with Search/HasAny/ForEach/ForEach-stop/HasValue for every key/value incl. the empty string, the "
                        "raw datastore count and an untouched neighbour index after every call. T: random byte-string pools. "
                        "non-trivial = behaviour whose multimap holds >= 2 pairs under >= 1 key at some point")
-    ctx.tlc_mc("PinIndex", "PinIndex.tla", "MCPinIndex.cfg", timeout=300, coverage=not ctx.quick)
+    if not skip_m:
+        ctx.tlc_mc("PinIndex", "PinIndex.tla", "MCPinIndex.cfg", timeout=600, coverage=not ctx.quick)
     q = ctx.quick
     sets = [("d", ctx.tlc_gen("PinIndex", "GenPinIndex.tla", "GenPinIndexD2.cfg" if q else "GenPinIndexD3.cfg", timeout=900)),
             ("sg", ctx.tlc_gen("PinIndex", "GenPinIndex.tla", "GenPinIndexSG2.cfg" if q else "GenPinIndexSG3.cfg", timeout=900)),
